@@ -106,20 +106,20 @@ Definition C14_unused_unchecked_stmt : Prop :=
 (* canon (ExecStreams.handle_canon_executed): a merged Executed canon state is rebuilt into a canon
    stream only if the tetraplet its result aggregate names is (resolved peer, "", "", "") *)
 Definition C14_use_canon_bound_stmt : Prop :=
-  forall x p name c x',
-    handle_canon_executed x p name c = XOk x' ->
+  forall k x p c x',
+    handle_canon_executed k x p c = XOk x' ->
     exists peer vcs,
       resolve_peer_id_to_string x p = POk peer /\
       c = CCanonResult (CTetraplet (canon_tetraplet peer)) vcs.
 
 (* otherwise: uncatchable InstructionParametersMismatch, context untouched, before any value is looked up *)
 Definition C14_use_canon_mismatch_stmt : Prop :=
-  forall x p name peer t vcs,
+  forall k x p peer t vcs,
     resolve_peer_id_to_string x p = POk peer ->
     cid_mem (CCanonResult (CTetraplet t) vcs) (cs_canon_results (x_cids x)) = true ->
     cid_mem (CTetraplet t) (cs_tetraplets (x_cids x)) = true ->
     t <> canon_tetraplet peer ->
-    handle_canon_executed x p name (CCanonResult (CTetraplet t) vcs) =
+    handle_canon_executed k x p (CCanonResult (CTetraplet t) vcs) =
     XErr (EUncatch (UInstructionParametersMismatch "canon tetraplet")) x.
 
 Definition C14_use_canon_stmt : Prop := C14_use_canon_bound_stmt /\ C14_use_canon_mismatch_stmt.
